@@ -369,3 +369,45 @@ func TestC09Enum(t *testing.T) {
 		}
 	})
 }
+
+// TestC09Large: 12000 and 70000 rejected rows in one file (agency.txt, whose rejections are reported; stops.txt; stop_times.txt),
+// spread over the positions of the file. Every (file, size) combination runs in every tier.
+func TestC09Large(t *testing.T) {
+	for _, file := range []string{"agency.txt", "stops.txt", "stop_times.txt", "calendar_dates.txt"} {
+		for _, n := range []int{12000, 70000} {
+			file, n := file, n
+			t.Run(fmt.Sprintf("%s-%d", file, n), func(outer *testing.T) {
+				fail := ""
+				defer func() {
+					if fail != "" {
+						outer.Fatalf("%s", fail)
+					}
+				}()
+				rapid.Check(outer, func(t *rapid.T) {
+					f := genC09Base(t)
+					ts := f.Tables()
+					tb := ts.Get(file)
+					if len(tb.Rows) == 0 {
+						t.Skip("no valid row to copy")
+					}
+					causes := c09Catalogue[file]
+					first := rapid.IntRange(0, 1000).Draw(t, "firstCause")
+					var bad []BadRow
+					for i := 0; i < n; i++ {
+						cause := causes[(first+i)%len(causes)]
+						bad = append(bad, BadRow{File: file, Pos: (i * 7) % (len(tb.Rows) + 1), Cells: c09MakeRow(tb, tb.Rows[i%len(tb.Rows)], cause, cause.Values[i%len(cause.Values)], fmt.Sprintf("burst-%d", i)), Cause: cause.Name})
+					}
+					c := CaseC09{Feed: f, Bad: bad, Inherit: rapid.Bool().Draw(t, "inherit")}
+					c.Env = genEnv(t)
+					c09Rec.Eval(fmt.Sprintf("large:%s:rejected-rows>=%d", file, n))
+					c09Rec.NontrivialCase(vt.Fingerprint([]any{file, n, first}), func() any {
+						return map[string]any{"file": file, "rejected_rows": n}
+					})
+					if msg := vt.Try(c09Rec, c, checkC09); msg != "" && fail == "" {
+						fail = msg
+					}
+				})
+			})
+		}
+	}
+}
